@@ -38,7 +38,7 @@ LEVEL_NOTE = 'trusted: mc/ref/cell.py (prune / mproof / mupdate constructors and
 TECHNIQUE = 'small-scope exhaustive enumeration of trees and prune sets plus exhaustive single-fault mutation of every accepted proof, against reference proof constructors'
 RULE += " Account dictionaries carry real aggregates: every fork extra (and the root extra) is the sum of its subtree's DepthBalanceInfo, so forks above an account with extra currencies own a dictionary reference; claimed 'empty cell' / None for an account that exists behind a pruned branch must be rejected."
 ASSUMPTIONS = ['proofs are built by the reference model (prune = replace a subtree by a pruned-branch cell carrying its level-wise hashes and depths)']
-NOT_ASSERTED = ['the depth field stored in the Merkle-proof ROOT cell (it is not committed by any hash)', 'check_shard_proof (not named by the property; needs a full masterchain state)',
+NOT_ASSERTED = ['check_shard_proof (not named by the property; needs a full masterchain state)',
                 'mutations that leave the proof valid (e.g. swapping two identical references) are not generated']
 
 
@@ -53,14 +53,20 @@ def REQUIRED_COVER(tier):
 
 
 # ------------------------------------------------------------------------------------------ helpers on reference cells
-def rebuild(c, path, fn):
+def rebuild(c, path, fn, refresh=False):
     """copy of tree c where the cell at `path` (tuple of child indexes) is replaced by fn(cell); ancestors are rebuilt
-    (their hashes change accordingly).  Raises RefCellError if the result is not a valid cell."""
+    (their hashes change accordingly).  A Merkle cell on the way either keeps its stored hashes (they are then NOT its children's any
+    more: an invalid cell, built lax - the forger's cheap variant) or, with refresh, gets the new children's hashes and depths (a
+    valid Merkle cell over another tree).  Raises RefCellError if the result is not a valid cell otherwise."""
     if not path:
         return fn(c)
     i = path[0]
     refs = list(c.refs)
-    refs[i] = rebuild(refs[i], path[1:], fn)
+    refs[i] = rebuild(refs[i], path[1:], fn, refresh)
+    if c.special and c.type in (RC.MPROOF, RC.MUPDATE):
+        if refresh:
+            return RC.mproof(refs[0]) if c.type == RC.MPROOF else RC.mupdate(refs[0], refs[1])
+        return RC.RCell(c.bits, tuple(refs), True, lax=True)
     return RC.RCell(c.bits, tuple(refs), c.special)
 
 
@@ -74,6 +80,9 @@ def flip(bits, i):
     return bits[:i] + ('1' if bits[i] == '0' else '0') + bits[i + 1:]
 
 
+PENDING = []
+
+
 def proof_mutants(proof):
     """every single-fault mutant of a Merkle proof cell (reference cells).  yields (tag, description, RCell or exception)"""
     root = proof.refs[0]
@@ -85,6 +94,11 @@ def proof_mutants(proof):
                 m = rebuild(proof, p, fn)
             except RC.RefCellError as e:
                 return (tag, desc, e)
+            try:
+                # the same fault with every Merkle cell above it re-made over its new children (a VALID proof of another tree)
+                PENDING.append((tag, desc + ' (Merkle cells above re-made)', rebuild(proof, p, fn, refresh=True)))
+            except RC.RefCellError:
+                pass
             return (tag, desc, m)
         if c.special and c.type == RC.PRUNED:
             n = bin(c.mask).count('1')
@@ -114,9 +128,19 @@ def proof_mutants(proof):
                         r[i], r[j] = r[j], r[i]
                         return RC.RCell(x.bits, tuple(r), x.special)
                     yield attempt('mut:swap-ref', f'cell at {path}: references {i} and {j} swapped', sw)
-    # the root itself
+    while PENDING:
+        yield PENDING.pop()
+    # the root itself: a Merkle proof cell is its type byte, the child's level-0 hash and depth, one reference - and nothing else
+    # (handed to the library RAW: ('raw', bits, reference cells, cell type) - the reference model would not even build them)
     for b in (0, 100, 255):
-        yield ('mut:root-hash', f'Merkle root: stored hash bit {b} flipped', RC.RCell(flip(proof.bits, 8 + b), proof.refs, True))
+        yield ('mut:root-hash', f'Merkle root: stored hash bit {b} flipped', ('raw', flip(proof.bits, 8 + b), proof.refs, 3))
+    for b in (264, 279):
+        yield ('mut:root-depth', f'Merkle root: stored depth bit {b - 264} flipped', ('raw', flip(proof.bits, b), proof.refs, 3))
+    yield ('mut:root-shape', 'Merkle root: one data bit appended', ('raw', proof.bits + '1', proof.refs, 3))
+    yield ('mut:root-shape', 'Merkle root: last data bit removed', ('raw', proof.bits[:-1], proof.refs, 3))
+    yield ('mut:root-shape', 'Merkle root: the reference duplicated', ('raw', proof.bits, proof.refs * 2, 3))
+    yield ('mut:root-shape', 'Merkle root: a second (foreign) reference', ('raw', proof.bits, proof.refs + (RC.RCell('1'),), 3))
+    yield ('mut:root-shape', 'Merkle root: the reference dropped', ('raw', proof.bits, (), 3))
     yield ('mut:root-type', 'root is an ordinary cell with the same data and child', wrap_try(lambda: RC.RCell(proof.bits, proof.refs, False)))
     yield ('mut:root-type', 'root is the proven tree itself (no Merkle wrapper)', root)
     yield ('mut:root-type', 'root is a Merkle update of the tree with itself', wrap_try(lambda: RC.mupdate(root, root)))
@@ -134,6 +158,21 @@ def lib_or_none(rc):
     """library twin of a reference cell; None if the library refuses to construct it (a rejection as good as any)"""
     try:
         return to_lib(rc, {})
+    except Exception:
+        return None
+
+
+def raw_lib(m):
+    """('raw', bits, reference cells, type) -> library cell built with the plain constructor, None if the library refuses it"""
+    from pytoniq_core.boc import Cell
+    from pytoniq_core.boc.tvm_bitarray import TvmBitarray
+    _, bits, refs, typ = m
+    memo = {}
+    kids = [to_lib(r, memo) for r in refs]
+    try:
+        ba = TvmBitarray(1023)
+        ba.extend(bits)
+        return Cell(ba, kids, typ)
     except Exception:
         return None
 
@@ -258,6 +297,15 @@ def case_generic(rec, name, nmax):
     for tag, desc, m in proof_mutants(proof):
         if isinstance(m, Exception):
             continue                      # not even a cell
+        if isinstance(m, tuple):
+            rec.state(('mutant', name, desc))
+            lm = raw_lib(m)
+            if lm is None:
+                rec.covered(tag)
+                rec.outcome('unconstructible')
+                continue
+            must_reject(rec, tag, f'{name}: {desc}', lambda lm=lm: check_proof(lm, H), 'case_generic', args, 'generic')
+            continue
         if not m.special or m.type != RC.MPROOF or m.refs[0].hash(0) != H or m.bits[8:264] != proof.bits[8:264]:
             pass
         else:
@@ -530,12 +578,15 @@ def state_cell_at(c, path):
     return c
 
 
-def shard_accounts(rec, ks):
+def shard_accounts(rec, ks, part=0, parts=1):
     n = len(KEYSETS[ks])
     masks = sorted({0, (1 << n) - 1, 1, 1 << (n - 1)})
+    i = 0
     for em in masks:
         for keep in (False, True):
-            account_case(rec, ks, em, keep)
+            i += 1
+            if i % parts == part:
+                account_case(rec, ks, em, keep)
 
 
 def selftest():
@@ -562,5 +613,6 @@ def shards(tier, seed):
     parts = 16 if tier == 'quick' else 48
     out = [{'fn': 'shard_generic', 'args': {'nmax': nmax, 'part': p, 'parts': parts}, 'prio': 2} for p in range(parts)]
     for ks in range(len(KEYSETS)):
-        out.append({'fn': 'shard_accounts', 'args': {'ks': ks}, 'prio': 3})
+        for part in range(4):
+            out.append({'fn': 'shard_accounts', 'args': {'ks': ks, 'part': part, 'parts': 4}, 'prio': 3})
     return out
